@@ -1368,7 +1368,7 @@ def run(rep):
             {'obligation': 'W:envjson', 'call': call[0], 'document': doc, 'impl': iv, 'model': mv,
              'n_disagreements': len(edis)}, found_input=False)
     found = stage_oracle_store(rep, rng, cases, n * (10 if dis else 1))
-    if dis and not found:
+    if dis and not rep.n_with_input:
         i, call, iv, mv = dis[0]
         rep.fail('W:envstore - model and EnvVarDict disagree (%d cases), e.g. on %r: impl %r, model %r' % (
             len(dis), cases[i], iv, mv),
